@@ -123,6 +123,19 @@ Theorem C14_cell_iff_ran_refuted :
 Proof. exact (conj tie_witness dup_witness). Qed.
 Print Assumptions C14_cell_iff_ran_refuted.
 
+(* ... and (a) is not an artefact of how the sort breaks ties: for EVERY qsort,
+   on two arches with equal start times and one suite each, the first column
+   belongs to one invocation and the row of the suite that ran only in the
+   other one shows its run there *)
+Theorem C14_cell_iff_ran_refuted_any_qsort : forall q, qsorts_ok q ->
+  exists pg v I S st href,
+    run_html q w_tie2 = Some pg /\ view (walk_dirs q) w_tie2 = Some v /\
+    one_run_per_suite v /\ In I v /\
+    nth_error (p_cols pg) 0 = Some (render_column (rinv_of I)) /\
+    In (S, RowOk [Some (st, href)]) (p_rows pg) /\ ~ ran_in S I.
+Proof. exact tie_any_qsort. Qed.
+Print Assumptions C14_cell_iff_ran_refuted_any_qsort.
+
 (* under the guards: for every qsort and every input, every row is a row of
    cells, no longer than the header, and the cell in the column of invocation I
    is non-empty iff the suite ran in I; then it carries the status derived from
@@ -245,6 +258,45 @@ Theorem C14_regression_unbounded_walk :
     end.
 Proof. exact (conj oob_walk_witness oob_page_witness). Qed.
 Print Assumptions C14_regression_unbounded_walk.
+
+(* ---- the output tree: every file and directory below the output directory
+   is the specified one (copies of dmesg, comment, patches, and per run the
+   extraction of its log; an existing path is never overwritten), and the link
+   of every run of every invocation leads to a file of that tree ---- *)
+Theorem C14_output_tree : forall q inp pg, run_html q inp = Some pg ->
+  exists v, view (walk_dirs q) inp = Some v /\ p_tree pg = spec_tree v.
+Proof. exact page_tree. Qed.
+Print Assumptions C14_output_tree.
+
+Theorem C14_links_exist : forall q inp pg, run_html q inp = Some pg ->
+  exists v, view (walk_dirs q) inp = Some v /\
+    forall I sr, In I v -> In sr (si_runs I) ->
+      exists c, In (pjoin (pjoin (si_arch I) (si_date I)) (sr_log sr), c) (p_tree pg).
+Proof. exact links_exist. Qed.
+Print Assumptions C14_links_exist.
+
+(* ---- the oracle applied to what the implementation rendered means the
+   specification: exit status, columns = the invocations by descending start
+   time, header fields, pass rates, rows in the specified order, every cell the
+   specified cell, no row longer than the header, the specified tree ---- *)
+Theorem C14_oracle_sound : forall inp o,
+  (spec_ok inp o = true -> view (walk_dirs exec_qsorts) inp = None -> o_exit o = 1) /\
+  (forall v, spec_ok inp o = true -> view (walk_dirs exec_qsorts) inp = Some v ->
+     inp <> [] -> nodupb (map sinv_dir v) = true ->
+     o_exit o = 0 /\
+     exists cols, all_some (map (find_inv v) (o_cols o)) = Some cols /\
+       List.length cols = List.length v /\ nodupb (map sinv_dir cols) = true /\
+       sorted_desc (map si_time cols) = true /\
+       forallb (fun p => column_ok (fst p) (snd p)) (combine cols (o_cols o)) = true /\
+       forallb (fun p => rate_ok (fst p) (snd p)) (combine cols (o_cols o)) = true /\
+       list_eqb beq (map or_suite (o_rows o)) (isort (row_le v) (spec_suites v)) = true /\
+       (forall r, In r (o_rows o) ->
+          beq (or_href r) (suite_href (or_suite r)) = true /\
+          list_all2 ocell_ok (spec_row cols (or_suite r)) (or_cells r) = true /\
+          (List.length (or_cells r) <= List.length cols)%nat) /\
+       tree_ok (spec_tree v) (o_tree o) = true).
+Proof. exact (fun inp o => conj (spec_ok_reject inp o) (fun v => spec_ok_sound inp o v)). Qed.
+Print Assumptions C14_oracle_sound.
 
 (* non-vacuity: two arches, three invocations with distinct start times, a
    suite that appears later, one that disappears, a failing one, a timeout:
